@@ -19,7 +19,8 @@ RULE = ('(1) exhaustive: all 24 orders of {put target ship on its fit, add proje
         'KNOWN-FINDING, every other order must agree. (2) random histories over 2-3 fits with projected effects '
         '(item and location filters, resist attributes) and fleets, re-target / stop / leave / rejoin / replace ops, vs '
         'the Lean spec at both depths. Non-trivial: orders outside K1 and histories whose final state has a running '
-        'applied projection or boost; distinct by order / seed.')
+        'applied projection or boost; distinct by order / seed.'
+        ' Also enumerated: all orders with the targeted ship on a fit that enters the solar system at any position (location-filter modifiers must reach the rig aboard it in every order), and a non-default projectable effect run through an effect mode with all orders of {mode, target} followed by all orders of {re-target to nothing / back / another ship / mode off}.')
 ASSUMPTIONS = ['K1 class (known finding): a target / member ship loaded, unloaded or replaced while targeted / boosted']
 CLAUSES = {
     'a running projectable effect modifies exactly its current target (item filter) / the items aboard a targeted ship (location filters)': 'spec lemmas affectsProjected_item_iff, affectsProjected_location_iff, projectionTargets_eq + correspondence',
